@@ -16,6 +16,7 @@ import (
 	"os/exec"
 	"path/filepath"
 	"regexp"
+	"runtime"
 	"sort"
 	"strings"
 	"sync/atomic"
@@ -31,6 +32,7 @@ type Ref struct {
 	Base     string   // -b: base directory for includes (default /etc/apparmor.d)
 	Includes []string // -I: extra include search dirs, in priority order
 	Features bool     // -M abi/3.0: compile mount/dbus/signal/ptrace/unix rules too
+	Timeout  time.Duration // budget for one run (0: refTimeout)
 }
 
 var refSeq int64
@@ -73,8 +75,30 @@ var ErrRefTimeout = errors.New("reference parser timed out")
 
 var refTimeout = 10 * time.Second
 
+// effectiveTimeout: the budget for one run of the reference parser. The base budget exists
+// because the parser hangs on a few valid generated preambles; on a machine that is
+// oversubscribed (other checks, builds) it is stretched by the load factor so that slowness
+// is not mistaken for a hang. A timeout is only ever reported as inconclusive.
+func (r Ref) effectiveTimeout() time.Duration {
+	d := refTimeout
+	if r.Timeout > 0 {
+		d = r.Timeout
+	}
+	if data, err := os.ReadFile("/proc/loadavg"); err == nil {
+		var l1 float64
+		fmt.Sscanf(string(data), "%g", &l1)
+		if f := l1 / float64(runtime.NumCPU()); f > 1 {
+			if f > 8 {
+				f = 8
+			}
+			d = time.Duration(float64(d) * f)
+		}
+	}
+	return d
+}
+
 func (r Ref) runFile(path string, extra ...string) (stdout, stderr []byte, err error) {
-	ctx, cancel := context.WithTimeout(context.Background(), refTimeout)
+	ctx, cancel := context.WithTimeout(context.Background(), r.effectiveTimeout())
 	defer cancel()
 	cmd := exec.CommandContext(ctx, refParser, append(r.args(extra...), path)...)
 	// the parser forks workers that inherit the pipes: kill the whole group
@@ -145,6 +169,9 @@ func (r Ref) Accepts(text string) (bool, string) {
 
 // AcceptsFile is Accepts for a file on disk.
 func (r Ref) AcceptsFile(path string, full bool) (bool, string) {
+	if r.Timeout == 0 {
+		r.Timeout = 5 * time.Minute // shipped / built files: no hang is known, large profiles take seconds
+	}
 	extra := []string{"-d"}
 	if full {
 		extra = nil // -Q alone: everything (rule merging, DFA construction) except the kernel load
